@@ -5,7 +5,7 @@
    names, types, scopes and keys are universally quantified with no bound.
    history_wf = the configured stale window (initially and after every reload) is not negative. *)
 From Coq Require Import List ZArith NArith Bool.
-From Dae Require Import C08_Spec C08_Model C08_Proofs.
+From Dae Require Import C08_Spec C08_Model C08_Proofs C08_Ttl C08_Lru.
 Import ListNotations.
 Open Scope Z_scope.
 
@@ -67,6 +67,41 @@ Print Assumptions C08_single_refresh.
 Theorem C08_fill_ttl_truthful : forall d now, now < d -> ttl_ok d now (ttl_from_deadline d now) = true.
 Proof. exact fill_ttl_truthful_proof. Qed.
 Print Assumptions C08_fill_ttl_truthful.
+
+(* TTL truthfulness over every interleaving of inserts, lookups, re-packs, janitor runs, reloads and refresh
+   completions (no hypothesis on the history, the configuration or the instants): a fresh hit never shows
+   more than max 1 (floor remaining seconds) + 15. *)
+Theorem C08_ttl_truthful :
+  forall (c : cfg) (h : list timed) (now : Z) (key : bytes) (e : entry) (ans ttl : Z) (r : bool),
+    mfind key (m_store (fst (m_run c h))) = Some e -> now < e_deadline e ->
+    snd (m_lookup (fst (m_run c h)) now key) = ObLook true ans ttl r ->
+    ttl_ok (e_deadline e) now ttl = true.
+Proof. exact ttl_truthful_proof. Qed.
+Print Assumptions C08_ttl_truthful.
+
+(* ... and in the spec's terms: against the deadline of the most recent insert under the key. *)
+Theorem C08_ttl_truthful_spec :
+  forall (c : cfg) (h : list timed) (now : Z) (key : bytes) (ans ttl : Z) (r : bool),
+    history_wf c h ->
+    snd (m_lookup (fst (m_run c h)) now key) = ObLook true ans ttl r ->
+    exists d, last_insert c h key None = Some (ans, d) /\ (now < d -> ttl_ok d now ttl = true).
+Proof. exact ttl_truthful_spec_proof. Qed.
+Print Assumptions C08_ttl_truthful_spec.
+
+(* LRU: the heap selection of evictLRUIfFull (buildMinHeap, then k times "swap root with the last heap slot,
+   heapifyMin") as written.  For every list of (key, lastAccess) entries and every k < length: the result is
+   a rearrangement of the entries, the evicted ones are its last k positions, and every evicted entry was
+   used no later than every kept one (ties arbitrary) - i.e. it selects what sorting by lastAccess would. *)
+Theorem C08_lru :
+  forall (entries : list cent) (k : nat),
+    (k < length entries)%nat ->
+    let h := extract k 0 (build_min_heap entries) in
+    let m := (length entries - k)%nat in
+    select_oldest entries k = skipn m h
+    /\ Permutation.Permutation entries h /\ length h = length entries
+    /\ (forall a b, (a < m)%nat -> (m <= b < length entries)%nat -> la h b <= la h a).
+Proof. exact select_oldest_proof. Qed.
+Print Assumptions C08_lru.
 
 (* Non-vacuity: a well-formed history with a replacement under a differently-cased name whose fixed TTL is
    configured in yet another case, a reload, a fresh hit of the latest answer, a stale hit asking for a
